@@ -37,7 +37,32 @@ def digests(prop_id, seed, indices, warmup=0):
     return out
 
 
+def baton_digest(n):
+    """digest of n C17 cases x 6 mode vectors with the REAL thread pool under baton control"""
+    import hashlib
+    sys.path.insert(0, os.environ.get('VERIF_REPO', '/repo'))
+    from . import props as P
+    from . import materialize as mat
+    from .props import h64, build_sched, names_of
+    from .harness import run_case
+    mat.setup_registries('baton-thread')
+    prop = P.get_prop('C17')
+    out = []
+    for j in range(n):
+        rng = random.Random(h64(5, 'C17', j))
+        case = prop.gen(rng)
+        for vec, sd in zip(P.MODE_VECTORS, case['mode_seeds']):
+            spec = prop.variant(case['spec'], vec, sd)
+            c2 = dict(case, spec=spec, registry='baton-thread')
+            sched, ss = build_sched(dict(case['scheds'][0]), names_of(spec))
+            out.append(run_case(c2, sched, set_seed=ss).digest)
+    return hashlib.sha1(''.join(out).encode()).hexdigest()
+
+
 def child(argv):
+    if argv[0] == '--baton':
+        print(json.dumps({'baton': baton_digest(int(argv[1]))}))
+        return
     prop_id, seed, lo, hi, step, warmup, order = argv[0], int(argv[1]), int(argv[2]), int(argv[3]), int(argv[4]), \
         int(argv[5]), argv[6]
     idx = list(range(lo, hi, step))
@@ -83,6 +108,24 @@ def main():
                     if bad <= 5:
                         print(f'DETERMINISM MISMATCH prop={prop_id} hashseed={hs} case={j}', file=sys.stderr)
         # informational: does the hash seed matter at all?
+    # real thread pool under baton control: 3 fresh interpreters must agree
+    env = dict(os.environ, PYTHONHASHSEED='1', PYTHONPATH=VERIF + os.pathsep + os.environ.get('VERIF_REPO', '/repo'),
+               PYTHONDONTWRITEBYTECODE='1')
+    nb = max(20, n // 5)
+    ps = [subprocess.Popen([sys.executable, '-m', 'verifsim.selftest', '--child', '--baton', str(nb)], env=env, cwd=VERIF,
+                           stdout=subprocess.PIPE, text=True) for _ in range(3)]
+    ds = []
+    for p_ in ps:
+        so, _ = p_.communicate(timeout=900)
+        if p_.returncode != 0:
+            print('selftest baton child failed', file=sys.stderr)
+            return 2
+        ds.append(json.loads(so)['baton'])
+    if len(set(ds)) != 1:
+        print(f'DETERMINISM MISMATCH in baton mode: {ds}', file=sys.stderr)
+        bad += 1
+    print(f'selftest-determinism (baton, real ThreadPoolExecutor): {nb * 6} runs x 3 interpreters: '
+          f'{"identical" if len(set(ds)) == 1 else "MISMATCH"}')
     print(f'selftest-determinism: {total} (property, hashseed, case) triples x 3 regimes '
           f'(1 proc / 8 procs / reversed after 150 warm-up cases): {bad} mismatches')
     return 2 if bad else 0
